@@ -218,3 +218,4 @@ def r03_7(ctx):
     ctx.check(not (per_interval_only and const_p), "shooting: B-spline signals inside the integrator", detail="a grid='bspline' signal in the dynamics is frozen at its value at t_k for all M integrator steps of interval k (zero-order hold): the flow does not converge to the continuous model as M grows",
               expected="the signal evaluated at the stage times of every sub-step (as DirectCollocation does at its collocation times), or such models rejected by the shooting methods",
               found="get_signals_at returns e.sampled[%s]; discrete_system passes the same p to every sub-step" % k, fi=g, sample={"signals": ast.unparse(rets[0].value) if rets else None})
+
